@@ -308,11 +308,12 @@ func modelLinks(c plumbCase) []link {
 	return out
 }
 
-func obsTerm(o *[2]int) string {
+// obsFlat appends the flat encoding of one observation: 0 (no socket) or 1, receive, send.
+func obsFlat(acc []uint64, o *[2]int) []uint64 {
 	if o == nil {
-		return "None"
+		return append(acc, 0)
 	}
-	return vgen.Opt(vgen.Pair(vgen.N(uint64(o[0])), vgen.N(uint64(o[1]))), true)
+	return append(acc, 1, uint64(o[0]), uint64(o[1]))
 }
 
 // ---------------------------------------------------------------- real sockets
@@ -383,14 +384,14 @@ func main() {
 
 	linkTerms := func(c plumbCase) ([]link, string) {
 		ml := modelLinks(c)
-		lt := make([]string, len(ml))
+		lt := make([]uint64, len(ml))
 		for j, l := range ml {
-			lt[j] = vgen.Pair(vgen.N(uint64(l.Kind)), vgen.N(uint64(l.Origin)))
+			lt[j] = uint64(l.Kind + 3*l.Origin)
 		}
-		return ml, vgen.List(lt)
+		return ml, vgen.NList(lt)
 	}
 
-	np := run.Count(400, 20000)
+	np := run.Count(240, 20000)
 	for i := 0; i < np; i, id = i+1, id+1 {
 		c := genPlumb(rng.Fork(uint64(i)), i)
 		if !run.Want() {
@@ -408,10 +409,10 @@ func main() {
 		}
 		ml, lt := linkTerms(c)
 		obs := alignWithModel(c, res.obs)
-		ot := make([]string, len(ml))
+		var ot []uint64
 		opens := 0
 		for j, l := range ml {
-			ot[j] = obsTerm(obs[j])
+			ot = obsFlat(ot, obs[j])
 			if obs[j] != nil {
 				opens++
 				run.Tally(fmt.Sprintf("open:kind%d-origin%d", l.Kind, l.Origin))
@@ -422,7 +423,7 @@ func main() {
 		run.Tally(fmt.Sprintf("driver:%d", c.Driver))
 		run.Tally(fmt.Sprintf("sizes:eq=%v,zero=%v", c.Rcv == c.Snd, c.Rcv == 0 || c.Snd == 0))
 		term := vgen.App("SockCfg.CPlumb", vgen.N(uint64(c.Rcv)), vgen.N(uint64(c.Snd)),
-			vgen.N(uint64(c.Batch)), vgen.B(c.Reuse), lt, vgen.List(ot))
+			vgen.N(uint64(c.Batch)), vgen.B(c.Reuse), lt, vgen.NList(ot))
 		run.Add("plumb", term, fmt.Sprint(c), c.Rcv != c.Snd && opens > 0,
 			map[string]any{"case": c, "impl": obs})
 	}
@@ -448,7 +449,7 @@ func main() {
 	}
 
 	// the whole chain with real sockets
-	nc := run.Count(40, 1000)
+	nc := run.Count(30, 1000)
 	for i := 0; i < nc; i, id = i+1, id+1 {
 		r := rng.Fork(uint64(2000000 + i))
 		c := genPlumb(r, 1<<30)
@@ -476,10 +477,10 @@ func main() {
 		}
 		ml, lt := linkTerms(c)
 		bufs := alignWithModel(c, res.bufs)
-		ot := make([]string, len(ml))
+		var ot []uint64
 		n := 0
 		for j := range ml {
-			ot[j] = obsTerm(bufs[j])
+			ot = obsFlat(ot, bufs[j])
 			if bufs[j] != nil {
 				n++
 			}
@@ -487,13 +488,13 @@ func main() {
 		run.Tally("chain:run")
 		term := vgen.App("SockCfg.CChain", vgen.N(uint64(c.Rcv)), vgen.N(uint64(c.Snd)),
 			vgen.N(uint64(c.Batch)), vgen.B(c.Reuse), lt,
-			vgen.N(uint64(def.Rcv)), vgen.N(uint64(def.Snd)), vgen.List(ot))
+			vgen.N(uint64(def.Rcv)), vgen.N(uint64(def.Snd)), vgen.NList(ot))
 		run.Add("chain", term, fmt.Sprint(c), c.Rcv != c.Snd && n > 0,
 			map[string]any{"case": c, "default": def, "impl": bufs})
 	}
 
 	// conn.New alone
-	ns := run.Count(60, 2000)
+	ns := run.Count(40, 2000)
 	for i := 0; i < ns; i, id = i+1, id+1 {
 		r := rng.Fork(uint64(1000000 + i))
 		rcv, snd := pick(r, rmax), pick(r, wmax)
